@@ -58,7 +58,16 @@ edges skipping exactly 1020..1026 levels, (xxvii) non-ASCII whitespace read thro
 conditionals nested without parentheses, (xxix) the provided `Iterator` methods (`count`, `last`, `nth`, `size_hint`) on
 a partially consumed iterator and `next()` after the end; operands now include structured functions (symmetric,
 self-dual, flip-symmetric, cubes, multiplexers) one time in six. One seeded change (C11-w5-b4) is caught by the check of
-ANOTHER property than its author named (C17: it lives in `set_num_vars`).
+ANOTHER property than its author named (C17: it lives in `set_num_vars`); from the sixth wave (`*-w6-*`, 30 changes, told
+the families of waves 4 and 5 as used up; 26 caught by the first run, 4 of them first by the check of a neighbouring
+property — C05 for a non-canonical limited result, C19 for state left behind by an unwound or abandoned call, C09 for a
+double count on a permuted array — after which the named property's check was given the missing family too): (xxx) sparse
+DNF-shaped functions for `pick`, (xxxi) 2^k paths for k around 64 and 128, (xxxii) short clause lists over 17..60
+variables with an oracle that probes every clause, (xxxiii) names containing the separators of a printed name list,
+(xxxiv) an operation after a caught panic of a user closure, (xxxv) a quantifier right after a call that gave up,
+(xxxvi) limited operators with output flips among the canonicity families, (xxxvii) `cardinality()` of accepted foreign
+arrays. One first-run "miss" was a CRASH of the comparator on an unexpected `Some(..)` (C17): comparator exceptions are
+now reported as violations (`no-failing-input-found`) instead of ending the check without a verdict.
 
 | seeded change | property | needs | caught | by |
 |---|---|---|---|---|
